@@ -38,7 +38,8 @@ class C13(WrapHarness):
     def bounds_text(self, tier):
         q = tier == 'quick'
         return ('texts of <= %d visible characters (symbolic 1-byte for the ASCII separator, a stated alphabet for the '
-                'Unicode separator) with <= %d well-formed sequences (SGR ESC[1m, hyperlink ESC]8;;x ESC\\) inserted so '
+                'Unicode separator) with <= %d well-formed sequences (SGR ESC[1m, truecolor ESC[38;2;255;128;0m, hyperlink '
+                'ESC]8;;x ESC\\, title ESC]0;c:\\a BEL) inserted so '
                 'that each touches a non-space character (and no hyphen when the hyphen splitter is active); all widths, '
                 'both algorithms, both separators, break_words on/off' % (3 if q else 4, 2 if q else 3))
 
